@@ -1065,11 +1065,16 @@ func (db *DB) init(ctx context.Context) (err error) {
 
 	// Set PERSIST_WAL to prevent WAL file removal when database connections close.
 	if err := db.setPersistWAL(ctx); err != nil {
+		// Not initialized yet: drop the handle so the next sync retries init.
+		_ = db.db.Close()
+		db.db = nil
 		return fmt.Errorf("set PERSIST_WAL: %w", err)
 	}
 
 	// Open long-running database file descriptor. Required for non-OFD locks.
 	if db.f, err = os.Open(db.path); err != nil {
+		_ = db.db.Close()
+		db.db, db.f = nil, nil
 		return fmt.Errorf("open db file descriptor: %w", err)
 	}
 
